@@ -42,7 +42,8 @@ def run(ctx):
     R = json.load(open(rep_path))
     if R.get("error"):
         raise Inconclusive("view-run: " + R["error"])
-    if R["run"] != R["cases"]:
+    hard = [f for f in (R["findings"] or []) if f["kind"] in ("crash", "view")]
+    if R["run"] != R["cases"] and not hard:
         raise Inconclusive("view-run ran %d of %d cases" % (R["run"], R["cases"]))
     ctx.cov["evaluations"] += R["views"]
     ctx.cov["distinct_nontrivial"] += R["views_compared_in_full"]
